@@ -10,6 +10,11 @@ def tt_cat(E, s):
         ts.append(x)
         ds.append(dense(E, xc))
     dim = s['dim']
+    if s.get('repeat') is not None:
+        # the same object appears more than once among the operands
+        order = list(s['repeat'])
+        ts = [ts[i] for i in order]
+        ds = [ds[i] for i in order]
     if s.get('aslist'):
         z = E.tt.cat(ts, dim)
     else:
